@@ -239,12 +239,14 @@ def t4_gen(rng, small=False, big=False):
     mapping = rng.choice([2, 2, 3])
     ns = 2 if mapping == 2 else 4
     mfs = rng.choice([5, 8, 16, 40, 64, 100] if small else [5, 8, 16, 64, 100, 255, 256, 257, 258, 300, 600, 1000])
-    if big and rng.random() < 0.5:
-        mfs = rng.choice([4096, 32767, 65535] + ([65536, 65537, 65600, 70000] if mapping == 3 else []))
     mle = rng.choice([ns, 15, 16, 59, 128, 250, 253, 254, 255, 256, 257, 1000, 65535, rng.randrange(ns, 256)])
     mlc = rng.choice([1, 2, 3, 4, 5, 6, 13, 52, 128, 250, 253, 254, 255, 256, 1000, 65535, rng.randrange(1, 256)])
     if small:
         mlc = rng.choice([1, 2, 3, 4, 5, 6, 7, 13, 20, 52, 255, 256, 4000])
+    if big and rng.random() < 0.5:
+        mfs = rng.choice([4096, 32767, 65535] + ([65536, 65537, 65600, 70000] if mapping == 3 else []))
+        mle = rng.choice([250, 255, 256, 257, 1000, 65535])       # keep the command count of huge files moderate
+        mlc = rng.choice([250, 253, 255, 256, 1000, 65535])
     cfg = dict(mapping=mapping, mle=mle, mlc=mlc, mfs=mfs, rf=0, wf=0, fid=rng.choice(['e104', 'e104', '0001', 'beef']),
                v2=True, v1=False)
     r = rng.random()
